@@ -230,6 +230,16 @@ def run(case):
                     q = (v * u.Unit(un)).to(alt)
                 else:
                     q = v * u.Unit(un)
+                if as_quantity and case["wseed"] % 3 == 2:
+                    # the classes astropy builds on Quantity are Quantities: an Angle for an angle, a SpectralCoord for a
+                    # length (whatever unit they are in)
+                    from astropy.coordinates import Angle, SpectralCoord
+                    if q.unit.physical_type == "angle":
+                        q = Angle(q)
+                    elif q.unit.physical_type == "length" and np.all(q.value > 0):
+                        q = SpectralCoord(q)
+                        if not case["fam"].startswith("probe") and case["wseed"] % 2 and case["which"] == "wcs":
+                            q = q.to(u.THz)        # the same wavelength given as a frequency (a SpectralCoord converts itself)
                 pt.append(q if as_quantity else float(q.to_value(ulist[i] if alt_ulist else un)))
             pts.append(pt)
         if mixed:
